@@ -105,7 +105,7 @@ func runC07(rc *RunCtx) {
 		return
 	}
 	defer c.Close()
-	s := &SW{rc: rc, c: c}
+	s := &SW{rc: rc, c: c, RollbackProb: 0.05}
 	m := &c07mon{s: s, rc: rc, paths: map[string]bool{}}
 	const GB = int64(1_000_000_000)
 	step := func(dt time.Duration) bool {
